@@ -76,9 +76,9 @@ def hu_text(rng, hu):
         if t[0] == "+":
             parts.append("+")
         elif t[0] == "U":
-            parts.append("U%d" % t[1])
+            parts.append("U%s" % t[1])
         else:
-            parts.append("H%d(%s)" % (t[1], hu_text(rng, t[2])))
+            parts.append("H%s(%s)" % (t[1], hu_text(rng, t[2])))
     sep = rng.choice([" ", " ", "  "])
     return sep.join(parts)
 
@@ -106,7 +106,7 @@ def ext_text(rng, ext, plain=False):
         if n == 1 and (plain or rng.random() < 0.6):
             toks.append(s)
         else:
-            toks.append("%d%s" % (n, s))
+            toks.append("%s%s" % (n, s))
     if plain:
         return "".join(toks)
     return "".join(t + (" " if rng.random() < 0.4 else "") for t in toks).strip() or toks and "".join(toks) or ""
@@ -328,7 +328,7 @@ def parts_text(rng, parts):
     for n, c in parts:
         if n == "?": tok = "?" + c
         elif n == 1 and rng.random() < 0.5: tok = c
-        else: tok = "%d%s" % (n, c)
+        else: tok = "%s%s" % (n, c)
         out += tok + (" " if rng.random() < 0.5 else "")
         if n != "?" and tok == c and out.rstrip() != out:
             pass
@@ -848,3 +848,306 @@ def spec_arrays(lines, struct_orient):
         g = cls[r] if not q else set(BCOMPL[b] for b in cls[r])
         st.append(REV_GROUPS["".join(sorted(g))])
     return ("ok", eq, wc, st)
+
+# ------------------------------------------------------------------ expressions inside templates
+def num_text(rng, n):
+    """a number of a template: literal int or ("e", expr)"""
+    if isinstance(n, (list, tuple)) and n and n[0] == "e":
+        from props import c13
+        return "<" + c13.expr_text(rng, n[1]) + ">"
+    return str(n)
+
+def eval_num(n, env):
+    if isinstance(n, (list, tuple)) and n and n[0] == "e":
+        from props import c13
+        return c13.eval_ast(n[1], env)
+    return n
+
+def instantiate(x, env):
+    """replace every ("e", expr) number in an AST by its value"""
+    if isinstance(x, (list, tuple)):
+        if len(x) == 2 and x[0] == "e" and isinstance(x[1], (list, tuple)):
+            return eval_num(x, env)
+        return [instantiate(y, env) for y in x]
+    if isinstance(x, dict):
+        return {k: instantiate(v, env) for k, v in x.items()}
+    return x
+
+def sexp_nums(x):
+    """AST -> s-expression with ("e" expr) nodes in the model's encoding"""
+    from props import c13
+    if isinstance(x, (list, tuple)):
+        if len(x) == 2 and x[0] == "e" and isinstance(x[1], (list, tuple)):
+            return ["e", c13.sexp_expr(x[1])]
+        return [sexp_nums(y) for y in x]
+    return x
+
+# parameterised component templates (ports: (seq, star, structure?)), lengths as functions of args
+def param_templates():
+    E = lambda e: ["e", e]
+    n = ["v", "n"]; m = ["v", "m"]
+    t1 = {"name": "P1", "params": ["n", "m"],
+          "prog": {"decl": ["P1", [["a", False, None], ["b", True, None]], [["c", False, ["Some", "S"]]]],
+                   "body": [["seq", "a", [["nuc", [[E(n), "N"]]]], None],
+                            ["seq", "b", [["nuc", [[E(m), "S"], [1, "A"]]]], ["Some", E(["+", m, ["n", 1]])]],
+                            ["seq", "c", [["ref", "a", False], ["nuc", [[2, "H"]]], ["ref", "b", True]], None],
+                            ["strand", False, "T", [["ref", "c", False], ["ref", "a", True]], None],
+                            ["struct", 1, "S", ["T"], False, ["ext", [[E(["+", ["*", ["n", 2], n], ["+", m, ["n", 3]]]), "."]]]]]},
+          "ports": lambda a: [("a", False, a[0]), ("b", True, a[1] + 1), ("c", False, a[0] + 2 + a[1] + 1)], "nin": 2}
+    t2 = {"name": "P2", "params": ["n"],
+          "prog": {"decl": ["P2", [["x", True, None]], [["x", False, None], ["y", True, None]]],
+                   "body": [["seq", "x", [["nuc", [["?", "N"], [1, "T"]]]], ["Some", E(n)]],
+                            ["seq", "y", [["ref", "x", True], ["ref", "x", False]], None],
+                            ["strand", False, "U1", [["ref", "y", False]], ["Some", E(["*", ["n", 2], n])]],
+                            ["struct", 0, "V", ["U1"], False, ["hu", [["H", E(n), [["+"]] if False else []]]]]]},
+          "ports": lambda a: [("x", True, a[0]), ("x", False, a[0]), ("y", True, 2 * a[0])], "nin": 1}
+    return [t1, t2]
+
+class SysGen:
+    """a library of components and systems in a directory tree, a top-level system, and the model's file table"""
+    def __init__(self, rng, depth=None):
+        self.rng = rng
+        self.files = {}       # relative path -> text
+        self.entries = []     # model file table
+        self.items = {}       # (dir, name) -> item
+        self.depth = depth if depth is not None else rng.choice([1, 1, 2, 2, 3])
+        self.includes = []
+        self.counter = 0
+
+    def new_comp(self, d):
+        rng = self.rng
+        self.counter += 1
+        if rng.random() < 0.35:
+            t = rng.choice(param_templates())
+            name = "%s_%d" % (t["name"], self.counter)
+            prog = {"decl": [name] + t["prog"]["decl"][1:], "body": t["prog"]["body"]}
+            item = {"kind": "comp", "name": name, "params": t["params"], "prog": prog, "ports_fn": t["ports"], "nin": t["nin"], "dir": d}
+        else:
+            name = "G%d" % self.counter
+            for _ in range(20):
+                g = CompGen(rng, name=name, allow_zero=rng.random() < 0.3, nstmts=rng.choice([3, 5, 8]), density=0.05)
+                prog = g.build()
+                ports = prog["decl"][1] + prog["decl"][2]
+                lens = [g.seqlen(p[0]) for p in ports]
+                if ports and all(l > 0 for l in lens): break
+            item = {"kind": "comp", "name": name, "params": [], "prog": prog, "nin": len(prog["decl"][1]), "dir": d,
+                    "ports_fn": (lambda a, ports=ports, lens=lens: [(p[0], p[1], l) for p, l in zip(ports, lens)])}
+        self.put(item)
+        return item
+
+    def put(self, item):
+        rng = self.rng
+        d = item["dir"]
+        ext = ".sys" if item["kind"] == "sys" else ".comp"
+        path = (d + "/" if d else "") + item["name"] + ext
+        if item["kind"] == "comp":
+            text = comp_text_tpl(rng, item["prog"], item["params"])
+            body = [sexp_nums(item["prog"]["decl"]), sexp_nums(item["prog"]["body"])]
+        else:
+            text = sys_text(rng, item)
+            body = [item["ins"], item["outs"], sexp_nums(item["stmts"])]
+        self.files[path] = text
+        self.entries.append([path, item["kind"] == "sys", item["params"], body])
+        self.items[(d, item["name"])] = item
+        item["path"] = path
+
+    def new_sys(self, d, level, top=False):
+        rng = self.rng
+        self.counter += 1
+        name = ("Top%d" if top else "Y%d") % self.counter
+        params = ["n"] if rng.random() < 0.4 else []
+        ninst = rng.choice([1, 2, 2, 3, 4])
+        stmts = []; imports = []; sigs = {}   # signal -> length
+        insts = []
+        sig_order = []
+        for k in range(ninst):
+            # choose or create a template
+            if level > 1 and rng.random() < 0.45:
+                sub_dir = self.place(d)
+                t = self.new_sys(sub_dir[0], level - 1)
+            else:
+                sub_dir = self.place(d)
+                t = self.new_comp(sub_dir[0])
+            alias = t["name"] if rng.random() < 0.7 else "A%d" % k
+            imp_path = sub_dir[1] + t["name"]
+            if (imp_path, alias) not in imports and not any(a == alias for _, a in imports):
+                imports.append((imp_path, alias))
+            else:
+                alias = [a for p, a in imports if p == imp_path][0] if any(p == imp_path for p, a in imports) else alias
+            # arguments
+            args = []; argvals = []
+            for p in t["params"]:
+                v = rng.choice([1, 2, 3, 4])
+                if params and rng.random() < 0.5:
+                    args.append(["e", ["+", ["v", "n"], ["n", v - 2]]]); argvals.append(("n", v - 2))
+                else:
+                    args.append(v); argvals.append(v)
+            insts.append({"name": "i%d" % k, "templ": alias, "item": t, "args": args, "argvals": argvals})
+        nval = rng.choice([2, 3])
+        item = {"kind": "sys", "name": name, "params": params, "dir": d, "nval_default": nval}
+        # wiring needs concrete port lengths: evaluate with this system's own parameter value (chosen by the instantiator);
+        # ports lengths may depend on n, so signals are only shared between ports whose lengths agree for every n (same expression)
+        def ports_of(inst, nv):
+            a = [(x[1] + nv if isinstance(x, tuple) else x) for x in inst["argvals"]]
+            return inst["item"]["ports_fn"](a), a
+        comp_stmts = []
+        for inst in insts:
+            ports, a = ports_of(inst, nval)
+            ports2, _ = ports_of(inst, nval + 1)
+            ins = []; outs = []
+            for pi, ((pn, pstar, plen), (_, _, plen2)) in enumerate(zip(ports, ports2)):
+                cands = [s for s in sig_order if sigs[s] == (plen, plen2)]
+                if cands and rng.random() < 0.4:
+                    s = rng.choice(cands)
+                else:
+                    s = "w%d" % len(sig_order); sig_order.append(s); sigs[s] = (plen, plen2)
+                (ins if pi < inst["item"]["nin"] else outs).append([s, rng.random() < 0.35])
+            comp_stmts.append(["component", inst["name"], inst["templ"], inst["args"], ins, outs])
+        item["insts"] = insts
+        item["stmts"] = [["import", [[p, ["Some", a] if a != p.split("/")[-1] else None] for p, a in imports]]] + comp_stmts
+        chosen = [s for s in sig_order if rng.random() < 0.5]
+        k = rng.randrange(len(chosen) + 1)
+        item["ins"] = [[s, rng.random() < 0.3] for s in chosen[:k]]
+        item["outs"] = [[s, rng.random() < 0.3] for s in chosen[k:]]
+        if rng.random() < 0.15 and chosen:      # the same signal exported twice with different stars
+            item["outs"].append([chosen[0], not (item["ins"] + item["outs"])[0][1]])
+        item["nin"] = len(item["ins"])
+        item["sig_lens"] = sigs
+        def ports_fn(a, item=item):
+            nv = a[0] if item["params"] else item["nval_default"]
+            d0 = item["nval_default"]
+            return [(s, st, item["sig_lens"][s][0] + (item["sig_lens"][s][1] - item["sig_lens"][s][0]) * (nv - d0)) for s, st in item["ins"] + item["outs"]]
+        item["ports_fn"] = ports_fn
+        self.put(item)
+        return item
+
+    def place(self, d):
+        """where a library item goes relative to importer dir d: (directory, import path prefix)"""
+        rng = self.rng
+        r = rng.random()
+        if r < 0.5: return (d, "")
+        if r < 0.75:
+            sub = rng.choice(["lib", "parts"])
+            return ((d + "/" if d else "") + sub, sub + "/")
+        inc = rng.choice(["inc1", "inc2"])
+        if inc not in self.includes: self.includes.append(inc)
+        return (inc, "")
+
+def comp_text_tpl(rng, prog, params):
+    """comp_text for ASTs that may contain ("e", expr) numbers"""
+    return comp_text(rng, TextNums(rng, prog), params)
+
+def TextNums(rng, x):
+    """replace ("e", expr) numbers by objects whose str() is <expr> so the plain printer can be reused"""
+    if isinstance(x, (list, tuple)):
+        if len(x) == 2 and x[0] == "e" and isinstance(x[1], (list, tuple)):
+            return NumExpr(num_text(rng, x))
+        return [TextNums(rng, y) for y in x]
+    if isinstance(x, dict):
+        return {k: TextNums(rng, v) for k, v in x.items()}
+    return x
+
+class NumExpr:
+    def __init__(self, s): self.s = s
+    def __str__(self): return self.s
+    def __mod__(self, o): return self.s
+    def __eq__(self, o): return False
+    def __hash__(self): return hash(self.s)
+    def __format__(self, spec): return self.s
+
+def sys_text(rng, item):
+    def sl(l): return (" + ").join(s + ("*" if st else "") for s, st in l)
+    lines = ["declare system %s%s: %s -> %s" % (item["name"], "(%s)" % ", ".join(item["params"]) if item["params"] else "", sl(item["ins"]), sl(item["outs"]))]
+    for st in item["stmts"]:
+        if rng.random() < 0.1: lines.append("# comment")
+        if st[0] == "import":
+            if st[1]:
+                lines.append("import " + ", ".join(p + (" as " + a[1] if a else "") for p, a in st[1]))
+        else:
+            args = ""
+            if st[3]:
+                args = "(" + ", ".join(num_text(rng, a) for a in st[3]) + ")"
+            lines.append("component %s = %s%s: %s -> %s" % (st[1], st[2], args, sl(st[4]), sl(st[5])))
+    return "\n".join(lines) + "\n"
+
+def add_decoys(gen, rng):
+    """same-named files in directories that must NOT win the lookup (later include directories)"""
+    incs = gen.includes
+    for (d, name), item in list(gen.items.items()):
+        if rng.random() > 0.35: continue
+        later = [i for i in incs if i != d] if d not in incs else incs[incs.index(d) + 1:]
+        later = [i for i in later if (i, name) not in gen.items]
+        if not later:
+            if not incs or d in incs: continue
+        if not later: continue
+        tgt = rng.choice(later)
+        if (tgt + "/" + name + ".comp") in gen.files or (tgt + "/" + name + ".sys") in gen.files: continue
+        prog = {"decl": [name, [["q", False, None]], [["q", False, None]]],
+                "body": [["seq", "q", [["nuc", [[7, "N"]]]], None], ["strand", False, "Tq", [["ref", "q", False]], None],
+                         ["struct", 1, "Sq", ["Tq"], False, ["ext", [[7, "."]]]]]}
+        gen.put({"kind": "comp", "name": name, "params": [], "prog": prog, "nin": 1, "dir": tgt,
+                 "ports_fn": (lambda a: [("q", False, 7), ("q", False, 7)])})
+
+def expected_system_den(gen, top, args, ctr0):
+    """Specification of the compiled system: every instance under its own path prefix (den_src of the
+    instantiated component), plus one signal sequence and one equality list per signal with the
+    orientation rule  signal[*bind] = port-as-declared.  Returns (den, anon counter)."""
+    doms = {}; named = {}; strands = {}; structs = []; kins = []; equals = []
+    ctr = [ctr0]
+    from props import c13
+    def resolve(importer_dir, path):
+        for d in [importer_dir] + gen.includes:
+            full = (d + "/" if d else "") + path
+            dd, nm = (full.rsplit("/", 1) if "/" in full else ("", full))
+            if (dd, nm) in gen.items: return gen.items[(dd, nm)]
+        raise KeyError(path)
+    def go(item, a, prefix):
+        env = dict(zip(item["params"], a))
+        if item["kind"] == "comp":
+            prog = instantiate(item["prog"], env)
+            d = den_src(prog, prefix, ctr[0])
+            if d is None: raise ValueError("ill-formed component " + item["name"])
+            ctr[0] = d["anon_end"]
+            doms.update(d["doms"]); named.update(d["named"]); strands.update(d["strands"]); structs.extend(d["structs"]); kins.extend(d["kins"])
+            ports = []
+            env2 = den_env(prog, prefix, d)
+            for p in prog["decl"][1] + prog["decl"][2]:
+                v = env2[p[0]]
+                ports.append(flip(v) if p[1] else v)
+            return ports
+        # system
+        templ = {}
+        sig_nts = {}; sig_eq = {}; order = []
+        for st in item["stmts"]:
+            if st[0] == "import":
+                for p, al in st[1]:
+                    templ[al[1] if al else p.split("/")[-1]] = p
+            else:
+                _, iname, tname, targs, ins, outs = st
+                sub = resolve(item["dir"], templ[tname])
+                vals = [eval_num(x, env) for x in targs]
+                if len(vals) != len(sub["params"]): raise ValueError("arity")
+                ports = go(sub, vals, prefix + iname + "-")
+                if len(ins) != sub["nin"] or len(ins) + len(outs) != len(ports): raise ValueError("port count")
+                for (s, star), V in zip(ins + outs, ports):
+                    if s not in sig_nts:
+                        nm = prefix + s
+                        sig_nts[s] = [(nm, i, False) for i in range(len(V))]; sig_eq[s] = []; order.append(s)
+                        if len(V) == 0: raise ValueError("dummy signal")
+                    if len(V) != len(sig_nts[s]): raise ValueError("signal length")
+                    sig_eq[s].append(flip(V) if star else V)
+        for s in order:
+            nm = prefix + s
+            doms[nm] = "N" * len(sig_nts[s]); named[nm] = sig_nts[s]
+            equals.append([sig_nts[s]] + sig_eq[s])
+        return [flip(sig_nts[s]) if st else sig_nts[s] for s, st in item["ins"] + item["outs"]]
+    go(top, args, "")
+    return {"doms": doms, "named": named, "strands": strands, "structs": structs, "kins": kins, "equals": equals}, ctr[0]
+
+def den_env(prog, prefix, d):
+    """name -> nucleotides for every sequence / super-sequence of an instantiated component (incl. zero-length ones)"""
+    env = {}
+    for st in prog["body"]:
+        if st[0] == "seq":
+            env[st[1]] = d["named"].get(prefix + st[1], [])
+    return env
